@@ -82,7 +82,7 @@ def automaton_strings(G, start, cont, extra_prefix_len):
         tails = [''.join(q) for n in range(1, cont + 1) for q in itertools.product('ACGT', repeat=n)]
     for p in short:
         for c in SYMS:
-            if cont == 1 and O.is_walk(G, start, p + c):
+            if O.is_walk(G, start, p + c):
                 continue        # what follows an accepted step is another (vertex, symbol) transition, covered from that vertex
             for t in tails:
                 out.add(p + c + t)
@@ -234,8 +234,10 @@ def _w_g1(args):
         for start, wf, nr in classes:
             R = O.reach(G, start)
             fast_ok = coder.no_deg3(G, R)
-            check_class(r, 1, G, start, 1 if quick else 2, 1 if quick else 3, fast_ok, quick=quick,
-                        brute=(4 if quick else 6) if nr <= 2 else 0)
+            # thorough: longer continuations after a rejected step, walk prefixes up to 2, brute force to 5 symbols;
+            # the per-string extras stay those of the quick tier
+            check_class(r, 1, G, start, 1 if quick else 2, 1 if quick else 2, fast_ok, quick=True,
+                        brute=(4 if quick else 5) if nr <= 2 else 0)
             r.ctr['classes'] += 1
             r.out.add((wf, nr, fast_ok))
     r.sample(_LAST.get('case'), 1)
@@ -249,7 +251,7 @@ def _w_other(args):
         for start in starts:
             R = O.reach(G, start)
             fast_ok = coder.no_deg3(G, R)
-            check_class(r, k, G, start, 1, 2, fast_ok, quick=quick, brute=(4 if quick else 6) if k == 2 and len(O.has_arcs(G)) <= 4 else 0)
+            check_class(r, k, G, start, 1, 2, fast_ok, quick=True, brute=(4 if quick else 5) if k == 2 and len(O.has_arcs(G)) <= 4 else 0)
             edits_class(r, k, G, start, 3 if quick else 5, fast_ok)
             r.ctr['classes'] += 1
     return r
@@ -276,8 +278,8 @@ def run(ctx):
     ctx.bounds = {'long_strands': '%d (filter graph of order 3-5, start) pairs: rule walks of %s nt with every single edit' % (len(jobs), '40' if ctx.quick else '40 and 150'),
                   'G1': 'all 158,824 (graph,start) classes incl. ill-formed graphs and dead starts',
                   'automaton': 'every reachable vertex (shortest prefix and every walk prefix of length <= %d) x 9 symbols x continuations of length <= %d'
-                               % ((1, 1) if ctx.quick else (3, 2)),
-                  'brute_force': 'all strings over ACGTN of length <= %d on classes with <= 2 reachable vertices' % (4 if ctx.quick else 6),
+                               % ((1, 1) if ctx.quick else (2, 2)),
+                  'brute_force': 'all strings over ACGTN of length <= %d on classes with <= 2 reachable vertices' % (4 if ctx.quick else 5),
                   'bit_lengths': '0, 1, needed, needed+3', 'checks': 'absent, correct, wrong, check of a single-edit neighbour',
                   'edits': 'all single edits of all walks of length <= %d on the order-2 binary-embedding and deletion graphs' % (3 if ctx.quick else 5)}
     ctx.rule = ('one case = (graph class, start, string, bit length, check, mode): the real decode returns an array of exactly the '
